@@ -714,7 +714,7 @@ func checkPageTagging(c *Ctx, rule string) {
 		okIssued := len(w.advances) > 0
 		for i, st := range w.advances {
 			t := affineOf(st.Val)
-			if i > 0 && !t.equal(issuedT) {
+			if i > 0 && !t.byField().equal(issuedT.byField()) {
 				okIssued = false
 			}
 			issuedT = t
@@ -747,9 +747,19 @@ func checkPageTagging(c *Ctx, rule string) {
 				continue
 			}
 			rc := recvs[0]
-			arg := argsOf(callOf(rc))[0]
+			// the order id argument: the method form takes it alone, the function form after the reader and the allocator
+			var arg ssa.Value
+			for _, a := range argsOf(callOf(rc)) {
+				if isBasicKind(types.Uint32)(a.Type()) {
+					arg = a
+				}
+			}
+			if arg == nil {
+				c.und(rule, name+" recvPacket", p.Pos(fn.Pos()), "no order id argument")
+				continue
+			}
 			nextT, okNext := termOf(arg)
-			c.check(okNext && okIssued && nextT.equal(issuedT), rule, name+" receive page tag predicts the order id", pos(rc),
+			c.check(okNext && okIssued && nextT.byField().equal(issuedT.byField()), rule, name+" receive page tag predicts the order id", pos(rc),
 				"the page is filed under packetCount+1, which is what the next advance stores", fmt.Sprintf("the receive buffer is filed under %s but the next order id issued is %s: the page that holds a received packet is filed under another request's order id and released while still in use", nextT, issuedT))
 			l := innermostLoop(loopsOf(fn), rc.Block())
 			if l == nil {
